@@ -5,7 +5,8 @@ _WASM = ["wasm:erc20", "wasm:inc_func", "wasm:sum_func", "wasm:shared-fungible-t
 
 _floors = {
     "twins": (1800, 15000), "oracle1_failures_checked": (700, 6000), "oracle4_success_checked": (600, 5000),
-    "reexecutions": (6000, 60000), "gas_sweeps": (250, 2000), "chain_contract_txs_ok": (600, 5000),
+    "reexecutions": (6000, 60000), "gas_sweeps": (250, 2000), "gas_sweeps:zero": (60, 400), "gas_sweeps:one-short-plus-fraction": (60, 400),
+    "gas_sweeps:inside-plus-fraction": (60, 400), "chain_contract_txs_ok": (600, 5000),
     "clock_jumps_31d": (6, 30),
     # cross-contract machinery of the WASM runtime
     "wasm_subcall_ok": (40, 300), "wasm_subdeploy_seen": (20, 150),
